@@ -1,7 +1,7 @@
 """C20 — dynamic lookups are invoked only with a sanitised realm argument."""
 ID = "C20"
-LEAN_TARGETS = ["Rsp.Props.C20"]
-THEOREMS = ["Rsp.Props.C20.dynRealmOf_some_iff", "Rsp.Props.C20.dynRealmOf_sanitised", "Rsp.Props.C20.exec_argv", "Rsp.Props.C20.dns_names",
+LEAN_TARGETS = ["Rsp.Props.C20", "Rsp.Tie.C20"]
+THEOREMS = ["Rsp.Tie.C20.dynRealmBad_tie", "Rsp.Props.C20.dynRealmOf_some_iff", "Rsp.Props.C20.dynRealmOf_sanitised", "Rsp.Props.C20.exec_argv", "Rsp.Props.C20.dns_names",
             "Rsp.Props.C20.no_realm_no_lookup", "Rsp.Props.C20.afterLastAt_some", "Rsp.Props.C20.afterLastAt_none"]
 RULE = ("the real adddynamicrealmserver -> addserver -> clientwr thread -> dynamicconfig path, with execlp and the resolver replaced by recorders, on User-Names whose realm part holds "
         "EVERY octet value 1..255 at the first, a middle and the last position (exhaustive), plus lengths 0..253, zero/one/many '@', shell metacharacters, whitespace, leading '-', "
